@@ -2,6 +2,7 @@ package worlds
 
 import (
 	"math/big"
+	"reflect"
 	"sort"
 
 	"github.com/MinterTeam/minter-go-node/coreV2/types"
@@ -84,7 +85,7 @@ func defaultCommission() types.Commission {
 func NewG() *G {
 	g := &G{bals: map[types.Address]map[uint64]*big.Int{}}
 	g.S = types.AppState{
-		Commission:   defaultCommission(),
+		Commission:   DistinctCommission(),
 		TotalSlashed: "0",
 		Emission:     Bip(200000000),
 		PrevReward: types.RewardPrice{
@@ -182,4 +183,21 @@ func (g *G) Build() *types.AppState {
 	}
 	s := g.S
 	return &s
+}
+
+// DistinctCommission is the default table with every price made distinct
+// (field number i gets +i·10^13 pip), so that a mix-up of two prices is observable.
+func DistinctCommission() types.Commission {
+	c := defaultCommission()
+	v := reflect.ValueOf(&c).Elem()
+	for i := 0; i < v.NumField(); i++ {
+		f := v.Field(i)
+		if f.Kind() != reflect.String {
+			continue
+		}
+		n := I(f.String())
+		n.Add(n, new(big.Int).Mul(big.NewInt(int64(i)), big.NewInt(10000000000000)))
+		f.SetString(n.String())
+	}
+	return c
 }
